@@ -1423,6 +1423,22 @@ def apply_contract(ex: Exec, st: State, f: FuncRef, node, c: Contract, args, kwa
         raise Unsupported(f"contract {c.key} used at a call site without instantiating its ghost parameters {missing}")
     caller = ex.cur_name
     st.trace.append(("call", c.qualname, None, tuple(env.get(a.arg) for a in node.args.posonlyargs + node.args.args), ()))
+    # a contract whose parameter is specialised to a literal (parse_digits#... with digits=2) speaks about calls with
+    # that argument only: "the argument is that literal" is an obligation of the caller
+    for pname, spec in c.params.items():
+        if isinstance(spec, str) or callable(spec) or pname not in env:
+            continue
+        actual = st.deref(env[pname])
+        if spec is None:
+            ok = actual is None if not isinstance(actual, SV) else bm.values_equal(ex, st, actual, None)
+        else:
+            ok = bm.values_equal(ex, st, actual, spec)
+        t = ok if not isinstance(ok, bool) else z3.BoolVal(ok)
+        if isinstance(t, SV):
+            t = t.t
+        ex.oblige(st, f"{caller}.call[{c.qualname}].arg[{pname}]", "call-pre", t,
+                  info={"clause": f"{pname} == {spec!r} (the callee contract {c.key} is stated for this argument)", "callee": c.key})
+        st.assume(t)
     # pre-conditions are obligations of the caller
     for i, r in enumerate(c.requires):
         t = eval_spec(ex, st, r, env, what=f"{c.key}.requires[{i}]")
